@@ -321,7 +321,9 @@ def run_real(flavour, program, decisions, exp_trace, exp_final):
                 bad.append(("harness:event-loop-did-not-terminate", ""))
                 break
             if len(env.outstanding) > 1:
-                bad.append(("harness:two-outstanding-deferreds", repr(env.outstanding)))
+                # only reachable when the function was resumed (or finalised) although its awaited Deferred
+                # never fired
+                bad.append((comp + ":function-advanced-while-awaited-deferred-unfired" + suffix(), repr(env.outstanding)))
                 break
             j = env.outstanding.pop(0)
             kind, canc = env.decisions[j]
